@@ -16,6 +16,7 @@ type Target struct {
 	Pkg  string   `json:"pkg"`
 	Func string   `json:"func"`
 	Tags []string `json:"tags,omitempty"` // report only obligations carrying one of these tags (default: all)
+	SkipInstances []string `json:"skip_instances,omitempty"` // generic instances (substring of the instance key) not checked
 }
 
 type PropConfig struct {
@@ -123,6 +124,20 @@ func cmdCheck(args []string) int {
 			continue
 		}
 		for _, fn := range fns {
+			skip := false
+			for _, sk := range t.SkipInstances {
+				if strings.Contains(instanceKey(fn), sk) {
+					skip = true
+				}
+			}
+			if skip {
+				cfg.Extra = append(cfg.Extra, "generic instance not checked: "+instanceKey(fn))
+				continue
+			}
+			fc := fc
+			if ifc := eng.contractFor(fn); ifc != nil && ifc != fc && len(fn.TypeArgs()) > 0 {
+				fc = ifc // a contract written for this particular generic instance takes precedence
+			}
 			fvcs, err := eng.verifyFunc(fn, fc)
 			if err != nil {
 				genErrs = append(genErrs, err.Error())
